@@ -14,6 +14,16 @@ VERIF = os.path.dirname(os.path.dirname(os.path.abspath(__file__)))
 EXTRA_INC = ["-isystem", "/root/miniconda/include"]
 
 
+def loc_key(n):
+    """identity of a declaration's source position; macro-generated declarations of one macro invocation share the
+    expansion offset, so the spelling offset is part of the key"""
+    l = n.get("loc") or {}
+    sp = l.get("spellingLoc") or {}
+    b = (n.get("range") or {}).get("begin") or {}
+    bs = b.get("spellingLoc") or {}
+    return (l.get("file"), l.get("offset"), sp.get("file"), sp.get("offset"), b.get("offset"), bs.get("offset"))
+
+
 class AnalysisBroken(Exception):
     """An anchor vanished / clang failed / a construct cannot be interpreted.
     Reported as exit code 2: never a pass, never a violation."""
